@@ -6,6 +6,7 @@ import Std.Data.HashSet
 Stateful line-protocol driver for the profile-registry model (C14). See `tools/harness/c14.py`.
 
   init                       registry := Profiles() built from the generated tables          -> OK | ERR <exc>
+  initcheck                  hypotheses of C14.init_inv on the generated tables             -> OK | FAIL
   add <name> <props> <macros>                                                               -> OK | ERR <exc>
   addps <name> <props> <macros> ...                                                         -> OK | ERR <exc>
   rm <name> | rmnone | rmall                                                                -> OK | ERR <exc>
@@ -133,6 +134,17 @@ def stepLine (st : St) (line : String) : St × String :=
   | ["init"] =>
       let r := init theCfg CssVerif.Gen.C14.builtins
       ({ st with reg := r.1 }, reply r)
+  | ["initcheck"] =>
+      -- the hypotheses of `C14.init_inv` for the generated tables: names differ, every definition expands under
+      -- the joint environment (`bulkEnv` is restated here: base updated with each truthy macro dict in order)
+      let l := CssVerif.Gen.C14.builtins
+      let env := l.foldl (fun m d => dupdate m (if truthy d.macros then d.macros.getD [] else [])) theCfg.base
+      let names := l.map (·.name)
+      let nodup := names.eraseDups.length == names.length
+      let ok := l.all fun d => match expandDict theCfg.fuel env d.props with
+        | .ok _ => true
+        | .error _ => false
+      (st, if nodup && ok then "OK" else "FAIL")
   | ["add", n, p, m] => match decCps n, decProps p, decMacros m with
       | some n, some p, some m =>
           let r := addProfile theCfg st.reg n p m
